@@ -411,6 +411,9 @@ class TimeRecurrence:
         elif self._format_number == 4:
             kwargs = {"end_point": self._end_point + other,
                       "duration": self._duration}
+            if self._duration is None:
+                # Single-point recurrence: the point is also the start.
+                kwargs["start_point"] = kwargs["end_point"]
         return self.__class__(
             repetitions=self._repetitions, **kwargs,
             min_point=self._min_point, max_point=self._max_point)
